@@ -19,6 +19,44 @@ NEEDS = {
     "C11-2": ("C11", "a fold-count filter with a variable at fold depth >= 2, the variable used nowhere else or only with wider types"),
     "C13-1": ("C13", ">= 2 nested folds whose optional status differs between levels, and data where that @optional edge is missing"),
     "C13-2": ("C13", ">= 3 fold levels with an output-free middle level and outputs below it, a row whose outer fold is empty or under a missing @optional"),
+    "C06-1": ("C06", "intersecting a range with an inclusive end bound with a range whose exclusive end bound has the same value (`<= $a` then `< $a`), also across Int64/Uint64 encodings"),
+    "C06-2": ("C06", "excluding from a range bounded on BOTH sides a non-null value equal to one of its inclusive end points (`>= $lo`, `<= $hi`, `!= $lo`)"),
+    "C07-1": ("C07", "`=` / `!=` (also inside lists) between an Int64 and a Uint64 with the same 64-bit pattern: negative signed value vs unsigned value above i64::MAX"),
+    "C07-2": ("C07", "an ordering operator with both operands floats that are zeros of opposite sign (-0.0 vs 0.0)"),
+    "C08-1": ("C08", "equality between a negative Int64 and the Uint64 with the same bit pattern (>= 2^63)"),
+    "C08-2": ("C08", "ordering between -0.0 and 0.0 (total_cmp) while equality treats them as equal, also inside lists"),
+    "C09-1": ("C09", "a @recurse edge somewhere below an @optional edge, and a vertex for which that optional edge does not exist"),
+    "C09-2": ("C09", "a list-of-strings property (or tag) used with one of the eight string operators: the weakened frontend check accepts it and filtering.rs hits unreachable!()"),
+    "C10-1": ("C10", "a @filter operand string that is empty or starts with a multi-byte UTF-8 character (`value: [\"\"]`, `[\"\u00e9tag\"]`)"),
+    "C10-2": ("C10", "one query with a @fold whose body fails during component construction (undefined tag / ill-typed filter), a LATER @fold, and inside that later fold a filter on a tag defined outside it"),
+    "C12-1": ("C12", "one variable used first on a nullable property filter and later in a fold-count filter (needs Int!), with argument null"),
+    "C12-2": ("C12", "an argument value with an empty list one nesting level deeper than the variable's type allows (`[]` for Int, `[[]]` for [Int])"),
+    "C14-1": ("C14", "one @fold importing at least two different tags defined outside it (imported_tags collected in a HashMap)"),
+    "C14-2": ("C14", "a schema in which at least two different types each lack a field required by an interface they implement (error list order follows the hash seed)"),
+    "C15-1": ("C15", "resolve_neighbors receiving a context without an active vertex: an edge nested inside an @optional edge that is missing for some row"),
+    "C15-2": ("C15", "a trace recorded from an adapter that pulls >= 2 inputs before yielding its first output (read-ahead), replayed"),
+    "C16-1": ("C16", "a value containing FieldValue::Enum converted to TransparentValue and back (no JSON text involved)"),
+    "C16-2": ("C16", "a type with exactly 30 list levels and a non-null innermost type, rendered and parsed / serialised and deserialised"),
+    "C17-1": ("C17", "intersecting two types with at least two list levels whose nullability differs below the first element layer"),
+    "C17-2": ("C17", "the subtype relation on two SEPARATELY constructed types whose base name is not String or Int (Float, Boolean, custom)"),
+    "C18-1": ("C18", "a Uint64 in the top 2^(N-1) values of the u64 range decoded into a signed narrow field (i8/i16/i32), also inside Option / Vec"),
+    "C18-2": ("C18", "a tuple or fixed-size array target fed a list LONGER than its arity"),
+    "C19-1": ("C19", "a malformed schema where a type implements an OBJECT type that has a field, the implementer's name sorting before the implemented type's name"),
+    "C19-2": ("C19", "an interface chain of depth >= 2 whose middle interface narrows a field, and a leaf type re-declaring the wider form with the wider interface listed first in `implements`"),
+    "C20-1": ("C20", "an edge or entry point parameter that is nullable AND has an explicit non-null default, and a query outputting EdgeParameter.default"),
+    "C20-2": ("C20", "an interface with an implementer whose name sorts before its own, and a query traversing VertexType.implementer"),
+    "C21-1": ("C21", "@recurse needing an implicit coercion, depth >= 2, an explicit `... on T` directly inside the recursed edge, and a non-T vertex at depth >= 1"),
+    "C21-2": ("C21", "an edge whose parameters are ALL nullable, used with no arguments at all (defaults and implicit nulls never inserted)"),
+    "C23-1": ("C23", "an unobserved fold with a `>=`/`>` count filter and a `!=`/`not_one_of` count filter (variables), real and truncated count on different sides of the excluded value"),
+    "C23-2": ("C23", "@recurse on an edge that needs implicit coercion, depth >= 3, a non-coercible vertex reached at least two levels short of the depth"),
+    "C24-1": ("C24", "any code that moves or shares a compiled query across threads (EdgeParameters holds an Rc): compile-time only"),
+    "C24-2": ("C24", "regex / not_regex with a TAG argument executed concurrently by >= 2 threads that are on different tag values at that moment (check-then-use race on a process-wide cache)"),
+    "C25-1": ("C25", "a fault in resolve_neighbors on a vertex-type edge whose parameters all have defaults with at least one null default"),
+    "C25-2": ("C25", "a fault in resolve_property for __typename on a type or interface that declares only edges (no properties)"),
+    "C26-1": ("C26", "an EDGE (not entry point) parameter that is a list of nullable scalars (`[Float]`, `[String]!`, `[Boolean]`)"),
+    "C26-2": ("C26", "two vertex types whose names differ only by leading / trailing underscores (`Account`, `_Account`), both with properties or both with edges"),
+    "C27-1": ("C27", "a list nested >= 2 levels with an empty or all-null inner list next to a non-empty one, as argument or as adapter output"),
+    "C27-2": ("C27", "an edge with a nullable parameter without non-null default, omitted or null in the query, and an adapter that indexes the parameter mapping"),
     "C22-1": ("C22", "a lower-bound count filter (>= / >) together with a != / not_one_of filter on the same fold count, both with variables, nothing observing the fold, fold larger than the bound"),
     "C22-2": ("C22", "an outer fold with only lower-bound count filters whose only observed content is a nested fold's count @output, outer fold larger than the bound"),
 }
@@ -26,6 +64,7 @@ NEEDS = {
 
 def main():
     root = "/verif/seeded"
+    rows = []
     for sid in sorted(os.listdir(root)):
         d = f"{root}/{sid}"
         if not os.path.isdir(d) or not os.path.exists(f"{d}/verify.json"):
@@ -57,6 +96,14 @@ def main():
         }
         json.dump(meta, open(f"{d}/meta.json", "w"), indent=1)
         print(sid, "detected_by", meta["detected_by"])
+        rows.append((sid, prop, needs, meta["detected_by"], detections))
+    lines = ["# Seeded defects (written by independent sub-agents, confirmed in a scratch worktree)", "",
+             "Generated by `scripts/seeded_meta.py`. Each directory holds `patch.diff`, `demo/`, `notes.md`, `verify.json`, `detections.tsv`, `meta.json`.",
+             "`detected by` lists the registered checks whose quick tier (VERIF_SEED=1) reported a violation with the patch applied to /repo.", "",
+             "| id | property | needs, in order to manifest | detected by (quick tier) | runs recorded |", "|---|---|---|---|---|"]
+    for sid, prop, needs, det, detections in rows:
+        lines.append(f"| {sid} | {prop} | {needs} | {', '.join(det) if det else '**not detected**'} | {len(detections)} |")
+    open(f"{root}/README.md", "w").write("\n".join(lines) + "\n")
 
 
 if __name__ == "__main__":
